@@ -49,6 +49,10 @@ def units(tier):
         if ".invert" in u.name and u.name.endswith(".rel"):
             u.name = u.name.replace("c07.", "c06.inplace.")
             us.append(u)
+        elif u.name in ("c07.m4f.mod.invert0", "c07.m4f.mod.invertb", "c07.m4f.mod.guard"):
+            # 4x4: in-place == value, and the general path (last column not (0,0,0,1)) is exactly gjInverse() - modular in gjInverse
+            u.name = u.name.replace("c07.m4f.mod.", "c06.m44.")
+            us.append(u)
     return us
 
 
